@@ -128,6 +128,8 @@ def _up_packet(i):
 
 def _down_packet(j):
     j &= 3
+    if j == 2:
+        return (15, 3, (0xd2, 0x02, 0x55))     # a real packet on port 15 channel 3 (the header of a null packet, with data)
     return (3 + j, (j + 1) & 3, (0xd0 + j, j, 0x55))
 
 
@@ -367,6 +369,7 @@ class _World:
         self.expect = (0xff,)       # frame the driver should be (re)transmitting
         self.ntx = 0
         self.last_tx_choice = None
+        self.prequeued = None       # frame of a packet the application submitted while a transmission was in the air
         self.get_timeouts = []
         self.stats_cb = 0
         self.thread = None
@@ -417,7 +420,7 @@ class _World:
         mon = (self.sub & 3, self.acc & 3 if track else 0, self.sub - self.acc if track else 0,
                self.dl_sent & 3, self.rx & 3 if track else 0, self.dl_sent - self.rx if track else 0,
                self.run_unacked, self.hit, len(self.errs), self.echoed,
-               self.main, self.expect, 0 if self.main else self.probes)
+               self.main, self.expect, 0 if self.main else self.probes, self.prequeued)
         st = (kind, tuple(options), tuple(sorted((k, _canon(v)) for k, v in attrs.items())),
               tuple(sorted((k, _canon(v)) for k, v in loc.items())), peer, mon)
         return st
@@ -429,7 +432,8 @@ class _World:
             pk = self.link.receive_packet(0)
             if pk is None:
                 return
-            if (pk.header & 0xf3) == 0xf3:
+            if (pk.header & 0xf3) == 0xf3 and tuple(pk.data) in ((), (0x01, RSSI)):
+                # a null packet: the header of port 15 channel 3 and nothing (or the peer's RSSI report) behind it
                 self.nulls_rx += 1
                 continue
             got = (pk.port, pk.channel, tuple(pk.data))
@@ -509,6 +513,11 @@ class _World:
                 else:
                     self.bad('uplink:frame_corrupt', 'frame %s on air, packet in hand is %s'
                              % (bytes(frame).hex(), bytes(self.expect).hex()))
+        # the application may submit its next packet at any moment, also while this frame is in the air (it then waits
+        # in the driver's one-slot queue until the loop asks for it)
+        if self.prequeued is None and self.link.out_queue.empty():
+            if self.choose('apptx', (A_NONE, A_SUBMIT)) == A_SUBMIT:
+                self.prequeued = self._submit()
         advance = (not self.p_sl) or b2 != self.p_down
         if advance:
             opts = [T_LOST, T_ACK, T_ACK_DATA, T_KLOST, T_KLOST_DATA]
@@ -628,6 +637,21 @@ class _World:
         self.events.append('probe_echo')
         return True, tuple(frame)
 
+    def _submit(self):
+        """The application hands its next packet to the REAL RadioDriver.send_packet; returns the frame or None."""
+        from cflib.crtp.crtpstack import CRTPPacket
+        port, ch, data = _up_packet(self.sub)
+        pk = CRTPPacket()
+        pk.set_header(port, ch)
+        pk.data = bytes(data)
+        ok = self.link.send_packet(pk)
+        if ok is True:
+            self.sub += 1
+            self.events.append('submit')
+            return (pk.header,) + data
+        self.events.append('submit_rejected')
+        return None
+
     # ---- application hand-off = choice point ------------------------------------------------------
     def app_point(self, block, timeout):
         self.checkpoint(main=True)
@@ -636,27 +660,24 @@ class _World:
             self.state = self.capture('end', ())
             raise _Stop()
         self.get_timeouts.append((block, timeout))
-        if self.echoed and self.sub > self.acc:
+        if self.echoed and self.sub - (1 if self.prequeued is not None else 0) > self.acc:
             # the loop is replacing the frame in hand (window of the alternating-bit protocol is 1):
             # a submitted packet the peer has not accepted by now will never be transmitted again
             self.bad('uplink:lost', 'radio loop asks for the next packet while submitted packet #%d %r has not been '
                      'accepted by the peer' % (self.acc, _up_packet(self.acc)))
+        if self.prequeued is not None:
+            # the packet submitted during the last transmission is waiting in the queue: the loop takes it now
+            self.expect, self.prequeued = self.prequeued, None
+            self.events.append('take_prequeued')
+            self.log('out_queue.get(block=%r, timeout=%r): packet submitted earlier is waiting' % (block, timeout))
+            if self.rate:
+                self.events.append('rate_limited')
+            return
         c = self.choose('app', (A_NONE, A_SUBMIT))
         self.log('out_queue.get(block=%r, timeout=%r): %s' % (block, timeout, A_NAMES[c]))
         if c == A_SUBMIT:
-            from cflib.crtp.crtpstack import CRTPPacket
-            port, ch, data = _up_packet(self.sub)
-            pk = CRTPPacket()
-            pk.set_header(port, ch)
-            pk.data = bytes(data)
-            ok = self.link.send_packet(pk)
-            if ok is True:
-                self.sub += 1
-                self.expect = (pk.header,) + data
-                self.events.append('submit')
-            else:
-                self.events.append('submit_rejected')
-                self.expect = (0xff,)
+            fr = self._submit()
+            self.expect = fr if fr is not None else (0xff,)
         else:
             self.expect = (0xff,)
             self.events.append('idle')
